@@ -104,6 +104,26 @@ func TestC18(t *testing.T) {
 	runRegress(t, "C18")
 	rapid.Check(t, func(t *rapid.T) {
 		c := c18Case{Filter: genFilter(t), D: wire.GenSFDatagram(t)}
+		// the shape that depends on skipping by the declared length: a filtered sample in front of kept ones
+		if rapid.Bool().Draw(t, "prepend") {
+			var pre []wire.SFSample
+			if inFilter(c.Filter, 1) {
+				f := wire.GenSFFlow(t)
+				pre = append(pre, wire.SFSample{Kind: "flow", Flow: &f})
+			}
+			if inFilter(c.Filter, 2) {
+				cs := wire.GenSFCounter(t)
+				pre = append(pre, wire.SFSample{Kind: "counter", Counter: &cs})
+			}
+			for _, f := range c.Filter {
+				if f != 1 && f != 2 && f <= 0xfff && rapid.Bool().Draw(t, "prependunknown") {
+					pre = append(pre, wire.SFSample{Kind: "unknown", Format: f, Body: []byte{1, 2, 3, 4, 5, 6, 7, 8}})
+					// an enterprise-specific sample with the same format number is NOT a listed type
+					pre = append(pre, wire.SFSample{Kind: "unknown", Enterprise: 4413, Format: f, Body: []byte{9, 9, 9, 9}})
+				}
+			}
+			c.D.Samples = append(pre, c.D.Samples...)
+		}
 		v, sig, err := runC18(&c)
 		col.report(t, mustJSON(c), v, sig, err)
 	})
